@@ -127,14 +127,19 @@ func runC19(c *sim.Ctx) {
 	dir, cleanup := e.RunDir()
 	defer cleanup()
 	prof := world.Profile{PageSizes: []int{512, 1024, 4096}, MaxTables: 2, RowsLo: 0, RowsHi: 60, Fancy: 2, WithoutRow: 3, IndexesHi: 1,
-		Boundary: true, JournalMode: []string{"DELETE"}}
+		Boundary: true, JournalMode: []string{"DELETE"}, DDL: true, Vacuum: true}
 	w := world.New(c, e.W, dir, prof)
 	w.Build()
 	for i := s.Draw(3, "steps"); i > 0; i-- {
 		w.Step()
 	}
 	snap := w.Snap
-	w.Close()
+	worldOpen := true
+	defer func() {
+		if worldOpen {
+			w.Close()
+		}
+	}()
 	path := w.Path
 	// pick a table sqlittle accepts
 	var tabs []*sq.Table
@@ -181,10 +186,14 @@ func runC19(c *sim.Ctx) {
 		c.Inc("native_error", 1)
 		return
 	}
-	mode := s.Weighted([]int{4, 3, 3, 2}, "mode")
+	mode := s.Weighted([]int{4, 3, 3, 2, 3}, "mode")
+	if mode != 4 {
+		w.Close()
+		worldOpen = false
+	}
 	c.Log.Add("sim", "query", "%s rows=%d mode=%d", query, len(native), mode)
 	c.Note("query: %s (native rows: %d)", query, len(native))
-	c.Sample = map[string]interface{}{"query": query, "native_rows": len(native), "mode": []string{"database/sql complete+close/cancel at k", "driver.Stmt with parked producer", "fault mid-scan", "error inputs"}[mode]}
+	c.Sample = map[string]interface{}{"query": query, "native_rows": len(native), "mode": []string{"database/sql complete+close/cancel at k", "driver.Stmt with parked producer", "fault mid-scan", "error inputs", "prepared statement executed repeatedly with SQLite commits in between"}[mode]}
 	// one P: a goroutine created by the code under test does not run before the
 	// scheduler goroutine blocks, so "Close arrives before the producer was ever
 	// scheduled" is a reachable, repeatable order
@@ -305,6 +314,9 @@ func runC19(c *sim.Ctx) {
 				fail("rows-differ", "rows-not-prefix", fmt.Sprintf("%s: rows read before close/cancel are not a prefix of the native result (row %d)", query, at))
 			}
 			synctest.Wait()
+			if l, err := ownLocks(path); err == nil && len(l) > 0 {
+				fail("lock-held-after-close", "lock-held-after-rows-close", fmt.Sprintf("%s: rows.Close() has returned (sql.DB still open) and the process holds %v on the database", query, l))
+			}
 		case 1, 2: // driver.Stmt on a tracing pager: producer parkable at page reads; optional fault
 			fp, err := sdb.VerifFilePager(path)
 			if err != nil {
@@ -317,7 +329,31 @@ func runC19(c *sim.Ctx) {
 			tr := &pg.Trace{P: fp}
 			failAt := 0
 			if mode == 2 {
-				failAt = 1 + s.Draw(30, "failat")
+				// dry run through the same path to learn how many page reads one execution
+				// makes, so that the fault always lands inside it
+				nreads := 30
+				if fp0, err := sdb.VerifFilePager(path); err == nil {
+					tr0 := &pg.Trace{P: fp0}
+					if low0, err := sdb.VerifOpen(tr0, path+"-journal"); err == nil {
+						dbh0 := sqlittle.VerifWrap(low0)
+						st0 := drv.VerifStatement(dbh0, query)
+						if r0, err := st0.QueryContext(context.Background(), nil); err == nil {
+							dest := make([]sqldriver.Value, len(r0.Columns()))
+							for r0.Next(dest) == nil {
+							}
+							r0.Close()
+							nreads = tr0.ReadCount()
+						}
+						st0.Close()
+						synctest.Wait()
+					} else {
+						fp0.Close()
+					}
+				}
+				if nreads < 1 {
+					nreads = 1
+				}
+				failAt = 1 + s.Draw(nreads, "failat")
 				c.Fault("read-error-mid-scan")
 			}
 			tr.Event = func(kind string, n int, err error) {
@@ -437,6 +473,9 @@ func runC19(c *sim.Ctx) {
 			// the producer was started ungated; gate it now
 			gated.Store(true)
 			steps := 3 + s.Draw(3*len(native)+12, "steps")
+			// with a fault armed, half of the schedules read to the end (the consumer that
+			// must not be told "end of rows" quietly)
+			readAll := mode == 2 && s.Chance(1, 2, "readall")
 			closed := false
 			for i := 0; i < steps && !ended && !closed; i++ {
 				// enabled actions (never cancel while a Next is outstanding, never Next after cancel: see DESIGN §5.4)
@@ -445,10 +484,10 @@ func runC19(c *sim.Ctx) {
 				if !pendingNext && !cancelled {
 					acts = append(acts, "next", "next", "next")
 				}
-				if !pendingNext && !cancelled {
+				if !pendingNext && !cancelled && !readAll {
 					acts = append(acts, "cancel")
 				}
-				if !pendingNext {
+				if !pendingNext && !readAll {
 					acts = append(acts, "close")
 				}
 				a := acts[s.Draw(len(acts), "action")]
@@ -542,6 +581,11 @@ func runC19(c *sim.Ctx) {
 				fail("rows-differ", "rows-not-prefix:stmt", fmt.Sprintf("%s: rows delivered are not a prefix of the native result (row %d)", query, at))
 			}
 			synctest.Wait()
+			// the result set is closed, the statement (and its handle) still open: the read
+			// transaction is over, so the process must hold nothing on the file
+			if l, err := ownLocks(path); err == nil && len(l) > 0 {
+				fail("lock-held-after-close", "lock-held-after-rows-close", fmt.Sprintf("%s: rows.Close() has returned, the statement is still open, and the process holds %v on the database", query, l))
+			}
 			stmt.Close()
 			synctest.Wait()
 		case 3: // error inputs through database/sql
@@ -577,6 +621,118 @@ func runC19(c *sim.Ctx) {
 				fail("error-swallowed", "exec-accepted", "Exec succeeded on a read-only driver")
 			}
 			c.Probe("error-input")
+			synctest.Wait()
+		case 4: // a prepared statement, executed repeatedly, SQLite commits in between
+			db, err := sql.Open("sqlittle", path)
+			if err != nil {
+				fail("driver-error", "sql-open", err.Error())
+				return
+			}
+			defer db.Close()
+			db.SetMaxOpenConns(1) // every execution runs on the same driver statement
+			ctx, cancel := context.WithCancel(context.Background())
+			defer cancel()
+			badcol := s.Chance(1, 5, "badcol")
+			q := query
+			if badcol {
+				q = "SELECT nosuchcolumn, " + strings.Join(sel, ", ") + " FROM " + gen.Quote(t.Name)
+			}
+			stmt, err := db.PrepareContext(ctx, q)
+			if err != nil {
+				if !badcol {
+					fail("driver-error", "prepare-error", fmt.Sprintf("Prepare(%q): %v", q, err))
+				}
+				return
+			}
+			defer stmt.Close()
+			nexec := 2 + s.Draw(3, "nexec")
+			for e := 0; e < nexec; e++ {
+				if e > 0 && s.Chance(3, 4, "writer-between") {
+					before := w.Version
+					w.Step()
+					note("SQLite writer step between executions (version %d -> %d)", before, w.Version)
+					c.Fault("commit-between-executions")
+				}
+				// what the native API says now (fresh handle): columns of `*` follow the current definition
+				expCols := cols
+				if star {
+					cur := w.Snap.Table(t.Name)
+					if cur != nil {
+						expCols = append([]string{}, cur.ColNames()...)
+						if len(sel) > 1 {
+							expCols = append(expCols, cols[len(cols)-1])
+						}
+					}
+				}
+				nat, nerr := nativeRows(c, path, t.Name, expCols)
+				rows, err := stmt.QueryContext(ctx)
+				if err != nil {
+					if nerr == nil && !badcol {
+						fail("driver-error", "query-error:prepared", fmt.Sprintf("execution %d of prepared %q failed, the native select works: %v", e+1, q, err))
+						return
+					}
+					note("execution %d: Query error %v (native: %v)", e+1, err, nerr)
+					c.Probe("prepared-execution-error")
+				} else {
+					gotCols, _ := rows.Columns()
+					var got [][]sq.Val
+					k := -1
+					if s.Chance(1, 3, "partial") {
+						k = s.Draw(len(nat)+1, "k")
+					}
+					for (k < 0 || len(got) < k) && rows.Next() {
+						vals := make([]interface{}, len(gotCols))
+						ptrs := make([]interface{}, len(gotCols))
+						for i := range vals {
+							ptrs[i] = &vals[i]
+						}
+						if err := rows.Scan(ptrs...); err != nil {
+							break
+						}
+						row := make([]sq.Val, len(vals))
+						for i, v := range vals {
+							row[i] = drvVal(v)
+						}
+						got = append(got, row)
+					}
+					rerr := rows.Err()
+					rows.Close()
+					synctest.Wait()
+					note("execution %d: %d rows, rows.Err=%v (native: %d rows, err %v)", e+1, len(got), rerr, len(nat), nerr)
+					switch {
+					case badcol || nerr != nil:
+						if k < 0 && rerr == nil {
+							fail("error-swallowed", "error-swallowed:prepared", fmt.Sprintf("execution %d of prepared %q ended without an error (%d rows); native: %v", e+1, q, len(got), nerr))
+							return
+						}
+						c.Probe("prepared-execution-error")
+					case k < 0:
+						if rerr != nil {
+							fail("driver-error", "rows-err:prepared", fmt.Sprintf("execution %d of prepared %q: rows.Err() = %v on a healthy database", e+1, q, rerr))
+							return
+						}
+						if !strsEqFold(gotCols, expCols) {
+							fail("columns", "columns:prepared", fmt.Sprintf("execution %d of prepared %q: driver columns %v, current definition %v", e+1, q, gotCols, expCols))
+							return
+						}
+						if eq, at := rowsEq(nat, got, false); !eq {
+							fail("rows-differ", "rows-differ:prepared", fmt.Sprintf("execution %d of prepared %q differs from the native select at row %d: want %s got %s (%d vs %d rows)", e+1, q, at, fmtRows(nat, at), fmtRows(got, at), len(nat), len(got)))
+							return
+						}
+						c.Probe("prepared-reexecution-compared")
+					default:
+						if okp, at := prefixOf(got, nat); !okp {
+							fail("rows-differ", "rows-not-prefix:prepared", fmt.Sprintf("execution %d of prepared %q: rows read before Close are not a prefix of the native result (row %d)", e+1, q, at))
+							return
+						}
+					}
+				}
+				// the statement stays open between executions; the read transaction is over
+				if l, err := ownLocks(path); err == nil && len(l) > 0 {
+					fail("lock-held-after-close", "lock-held-after-rows-close", fmt.Sprintf("prepared %q: after execution %d (rows closed, statement open) the process holds %v on the database", q, e+1, l))
+					return
+				}
+			}
 			synctest.Wait()
 		}
 	})
@@ -628,7 +784,7 @@ func init() {
 	sim.Register(&sim.Prop{
 		ID: "C19", Engine: "E-DRV", Level: "exploration", Fn: runC19, NewEnv: NewEnv,
 		Runs: map[string]int{"quick": 1600, "thorough": 60000},
-		Rule: "per run: a database from the workload generator; a query `SELECT *|cols FROM t` (drawn column list) through the driver vs the native Select; inside a testing/synctest bubble one of four modes: (0) database/sql: read k rows (k drawn 0..n+1) then read to the end / rows.Close / cancel+Close / cancel+drain; (1) driver.Stmt on a tracing pager with the producer goroutine parked at EVERY page read: a seeded schedule of {release producer, Next (in its own goroutine, may be outstanding while the producer is parked), cancel, Close} one action at a time with synctest.Wait between; (2) the same with a read error injected at the k-th page read of the scan; (3) error inputs (unknown table/column, non-SELECT, unparsable, Exec); oracles: same rows/order/columns as native, errors surface through Query/Next/rows.Err/Close, no goroutine of the bubble left blocked (synctest deadlock report), no POSIX lock of the process left on the file, a SQLite write succeeds afterwards; evaluations = scenarios; non-trivial = table had rows; distinct = distinct event logs",
+		Rule: "per run: a database from the workload generator; a query `SELECT *|cols FROM t` (drawn column list) through the driver vs the native Select; inside a testing/synctest bubble one of four modes: (0) database/sql: read k rows (k drawn 0..n+1) then read to the end / rows.Close / cancel+Close / cancel+drain; (1) driver.Stmt on a tracing pager with the producer goroutine parked at EVERY page read: a seeded schedule of {release producer, Next (in its own goroutine, may be outstanding while the producer is parked), cancel, Close} one action at a time with synctest.Wait between; (2) the same with a read error injected at the k-th page read of the scan; (3) error inputs (unknown table/column, non-SELECT, unparsable, Exec); (4) a prepared statement kept open and executed 2-4 times (complete or closed at k; one in five with an unknown column) with seeded SQLite write transactions (DML, ALTER, VACUUM ...) committed between executions: every execution equals the native select of the then-current state, `*` follows the current definition, and after each execution - statement still open - the process holds no lock; oracles: same rows/order/columns as native, errors surface through Query/Next/rows.Err/Close, no goroutine of the bubble left blocked (synctest deadlock report), no POSIX lock of the process left on the file, a SQLite write succeeds afterwards; evaluations = scenarios; non-trivial = table had rows; distinct = distinct event logs",
 		Real: append([]string{"sqlittle driver package, database/sql (real, inside the bubble), producer goroutine; unix file pager on real files"}, realAll...),
 		Stub: []string{"none: the gate in the tracing pager only parks the producer"},
 		Assumptions: []string{"Go's choice among several ready select cases is not seedable: the scheduler never cancels while a Next is outstanding on a parked producer and never issues Next after cancel; both outcomes of that select are reached through the two explored orders (DESIGN §5.4)", "the goroutine-leak oracle is synctest's end-of-bubble deadlock report"},
@@ -655,7 +811,7 @@ func init() {
 			return ""
 		},
 		Vacuity: func(st map[string]int64, runs int, tier string) error {
-			for _, p := range []string{"complete-result-compared", "mid-scan-fault-surfaced", "error-input", "sqlite-write-after-close"} {
+			for _, p := range []string{"complete-result-compared", "mid-scan-fault-surfaced", "error-input", "sqlite-write-after-close", "prepared-reexecution-compared", "prepared-execution-error"} {
 				if st["probe."+p] == 0 {
 					return fmt.Errorf("reach probe %q is zero", p)
 				}
